@@ -3102,6 +3102,26 @@ func renamedFieldsOf(pkgPath, typ string, st *types.Struct) map[string]string {
 		}
 		if nm == 1 && len(cands) == 1 {
 			out[cands[0].Name()] = m
+			continue
+		}
+		// several fields of that type were renamed at once: the new name that contains the old one (healthy ->
+		// healthyTargets, index -> lastIndex), when that singles one out on both sides
+		var byName []*types.Var
+		for _, f := range cands {
+			if strings.Contains(strings.ToLower(f.Name()), strings.ToLower(m)) {
+				byName = append(byName, f)
+			}
+		}
+		if len(byName) == 1 {
+			claimed := 0
+			for _, m2 := range missing {
+				if baselineFieldType[pre+m2] == want && strings.Contains(strings.ToLower(byName[0].Name()), strings.ToLower(m2)) {
+					claimed++
+				}
+			}
+			if claimed == 1 {
+				out[byName[0].Name()] = m
+			}
 		}
 	}
 	return out
